@@ -36,6 +36,10 @@ THEOREMS = [
     "PorepyVerif.C05.set_frame",
     "PorepyVerif.C05.get_order_irrelevant",
     "PorepyVerif.C05.get_is_projection_of_global",
+    "PorepyVerif.C05.remove_multi_eq_sequential",
+    "PorepyVerif.C05.set_bad_indices",
+    "PorepyVerif.C05.get_bad_indices",
+    "PorepyVerif.C05.validateGet_spec",
 ]
 LEAN_MODULES = ["PorepyVerif.C05.Props"]
 AUDIT = "PorepyVerif/C05/Audit.lean"
@@ -48,6 +52,8 @@ RULE = ("histories of 1-25 (thorough: 1-40) EquationSystem calls on md-grids wit
         "duplicate / foreign grids, removed or foreign variables, wrong vector sizes, bad indices, out-of-range dofs). "
         "After every create/remove (and at the end) the complete layout (variables, block numbers in dict order, block "
         "sizes) is compared, together with dofs_of of every variable and identify_dof of every index in [-1, num_dofs]. "
+        "Well-formed removals are stratified: one variable; several Variables in one call in ascending, descending and "
+        "shuffled block order; one name; several names; md-variables; everything (None); name+Variable mixtures. "
         "non-trivial = at least two creates, one remove that succeeds, and one set/get pair; distinct = distinct histories")
 TRUSTED = [
     "modelled, not verified: python dict insertion order = the lists of the model; numpy slicing/concatenate/cumsum/argmax/sort "
@@ -65,7 +71,10 @@ EXPLANATION = ("FULL: the model is the state machine (_variables, _variable_numb
                "invariant holds after EVERY call sequence (block numbers are a bijection onto [0,#vars), sizes are the variables' "
                "dof counts), blocks follow grid order then creation order, block ranges tile [0,num_dofs), identify_dof returns the "
                "unique owner, projection_to selects exactly the dofs in increasing order, and set-then-get returns the written "
-               "values (overwrite and additive) in global order without touching other variables.")
+               "values (overwrite and additive) in global order without touching other variables; get(subset) = projection_to(subset) x "
+               "get(all); removing several variables in one call equals removing them one at a time in any order and leaves the "
+               "canonical clustering of the rest; reads/writes with inadmissible indices (both given, none, negative) raise "
+               "ValueError (or do nothing when no registered variable is addressed) and never change the state.")
 ASSUMPTIONS = [
     "values are dyadic rationals of small magnitude, so binary64 addition in additive writes is exact",
     "cluster order and storage-key uniqueness are proved for histories whose create calls name grids of the md-grid without "
@@ -293,6 +302,7 @@ def model_ops(case):
     last = len(case["ops"]) - 1
     for j, op in enumerate(case["ops"]):
         m = dict(op)
+        m.pop("stratum", None)
         if "refs" in m:
             m["refs"] = _mrefs(m["refs"])
         if m["op"] == "create" and m["dof"] is None:
@@ -448,7 +458,21 @@ def oracle(case):
             pre = _guard(_pre_set, tag, w, op, sel)
             if pre is not None and "key" in pre:
                 return pre
+        rm = None
+        if kind == "remove":
+            sel = _resolve(w, op["refs"])
+            if len({v.id for v in sel}) == len(sel) and all(v.id in es._variables for v in sel):
+                rm = (set(es._variables) - {v.id for v in sel},
+                      [i for i in sorted(es._variables, key=lambda i: es._variable_numbers[i]) if i not in {v.id for v in sel}], len(sel))
         ans = w.apply(j, op)
+        if rm is not None:
+            # several variables in one call, in whatever order: exactly they disappear, the others keep their relative order
+            if ans != "ok":
+                return {"what": f"{tag}: removing distinct registered variables raised {ans}", "key": "remove-raises"}
+            if set(es._variables) != rm[0] or (clustered and sorted(es._variables, key=lambda i: es._variable_numbers.get(i, -1)) != rm[1]):
+                return {"what": f"{tag}: after removing variables {op['refs']} the registered variables / their block order are "
+                                f"{[w.index_of.get(i) for i in sorted(es._variables, key=lambda i: es._variable_numbers.get(i, -1))]}, expected {[w.index_of.get(i) for i in rm[1]]}",
+                        "key": "remove-wrong-result"}
         if kind == "create" and (op.get("subs") is None) != (op.get("intfs") is None):
             gl = op["subs"] if op.get("subs") is not None else op["intfs"]
             want_kind = "sub" if op.get("subs") is not None else "intf"
@@ -456,6 +480,8 @@ def oracle(case):
                 clustered = False  # the call raised half-way (grid not in the md-grid): order is only claimed for well-formed histories
         if kind == "create" and isinstance(ans, dict) and "ids" in ans:
             clustered = True  # a create that ran to completion re-clustered everything
+        if rm is not None and ans == "ok" and rm[2] > 0:
+            clustered = True  # so did a removal of at least one variable
         if kind == "set" and pre is not None and ans == "ok":
             r = _guard(_post_set, tag, w, op, pre, tag)
             if r:
@@ -646,6 +672,59 @@ class _Sim:
         s = set(ids)
         return sum(v["size"] for v in self.alive() if v["idx"] in s)
 
+    def block_order(self):
+        """registered variables in the order of their blocks: md-grid listing position, then creation"""
+        subs, intfs = expected_order({"grids": self.grids})
+        rank = {k: i for i, k in enumerate(subs + intfs)}
+        return sorted(self.alive(), key=lambda v: (rank.get(v["grid"], -1), v["idx"]))
+
+
+def _gen_removal(rng, sim):
+    """Well-formed removals, stratified: one / several variables in one call (ascending, descending and shuffled block
+    order), by Variable, by name, by md-variable, everything, and mixtures without repetition. Returns (refs, stratum)."""
+    blocks = sim.block_order()
+    if not blocks:
+        return [[0, rng.randrange(4)]], "name-unknown"
+    mode = rng.choice(["one", "multi-asc", "multi-desc", "multi-desc", "multi-shuffled", "multi-shuffled", "name", "names", "md", "all", "mixed"])
+    if mode == "one" or len(blocks) == 1 and mode.startswith("multi"):
+        return [[1, rng.choice(blocks)["idx"]]], "one"
+    if mode.startswith("multi"):
+        k = rng.randint(2, len(blocks))
+        pos = sorted(rng.sample(range(len(blocks)), k))
+        if mode == "multi-desc":
+            pos.reverse()
+        elif mode == "multi-shuffled":
+            while len(pos) > 2 and (pos == sorted(pos) or pos == sorted(pos, reverse=True)):
+                rng.shuffle(pos)
+            if len(pos) == 2:
+                pos.reverse()
+        return [[1, blocks[i]["idx"]] for i in pos], mode
+    names = sorted({v["name"] for v in blocks})
+    if mode == "name":
+        return [[0, rng.choice(names)]], "name"
+    if mode == "names":
+        return [[0, n] for n in rng.sample(names, min(len(names), rng.randint(2, 3)))], "names"
+    if mode == "md":
+        live = [(j, ids) for j, ids in sim.creates if ids and all(sim.vars[i]["alive"] for i in ids)]
+        if live:
+            picks = rng.sample(live, min(len(live), rng.choice([1, 1, 2])))
+            seen, refs = set(), []
+            for j, ids in picks:
+                if not seen & set(ids):
+                    refs.append([2, j, list(ids)])
+                    seen |= set(ids)
+            return refs, "md" if len(refs) == 1 else "mds"
+        return [[1, rng.choice(blocks)["idx"]]], "one"
+    if mode == "all":
+        return None, "all"
+    # mixed: a name, plus Variables and an md-variable that do not carry that name (no variable twice)
+    n = rng.choice(names)
+    others = [v for v in blocks if v["name"] != n]
+    rng.shuffle(others)
+    refs = [[0, n]] + [[1, v["idx"]] for v in others[: rng.randint(0, 3)]]
+    rng.shuffle(refs)
+    return refs, "mixed"
+
 
 def _slotkeys(op):
     it, ts = op.get("iter"), op.get("ts")
@@ -762,12 +841,16 @@ def gen_case(rng, tier):
             sim.create(j, op)
             ops.append(op)
         elif t < 0.45:
-            refs = _gen_refs(rng, sim, bad)
-            if refs is None and rng.random() < 0.7:
-                refs = [[0, rng.randrange(4)]]
-            if bad and refs and rng.random() < 0.4:
-                refs.append(list(rng.choice(refs)))  # the same variable twice
-            op = {"op": "remove", "refs": refs}
+            if bad:
+                refs = _gen_refs(rng, sim, True)
+                if refs is None and rng.random() < 0.7:
+                    refs = [[0, rng.randrange(4)]]
+                if refs and rng.random() < 0.4:
+                    refs.append(list(rng.choice(refs)))  # the same variable twice
+                stratum = "malformed"
+            else:
+                refs, stratum = _gen_removal(rng, sim)
+            op = {"op": "remove", "refs": refs, "stratum": stratum}
             sim.remove(refs)
             ops.append(op)
         elif t < 0.62:
@@ -878,4 +961,5 @@ def stats(cases, impl_outs):
             "max_num_dofs": maxdofs, "history_length": dict(Counter(min(len(c["ops"]) // 5 * 5, 40) for c in cases)),
             "subdomains": dict(Counter(sum(1 for g in c["grids"] if g["kind"] == "sub") for c in cases)),
             "interfaces": dict(Counter(sum(1 for g in c["grids"] if g["kind"] == "intf") for c in cases)),
+            "removal_strata": dict(Counter(o.get("stratum", "?") for c in cases for o in c["ops"] if o["op"] == "remove")),
             "additive_sets": sum(1 for c in cases for o in c["ops"] if o["op"] == "set" and o["additive"])}
